@@ -82,7 +82,7 @@ def at_prompt(text):
     return PROMPT.search(text) is not None
 
 
-def editor_session(lace, asm, cache_dir, init_hist, keys, mode="single"):
+def editor_session(lace, asm, cache_dir, init_hist, keys, mode="single", cols=0):
     """Type `keys` (list of key dicts) at the debugger prompt of a real tty session.
     mode: single = one key at a time (waiting for the redraw), burst = everything in one write.
     Returns dict(history=list of lines in the history file afterwards, panicked, prompt_seen, transcript)."""
@@ -93,6 +93,12 @@ def editor_session(lace, asm, cache_dir, init_hist, keys, mode="single"):
             f.write(h + "\n")
     env = dict(os.environ, NO_COLOR="1", XDG_CACHE_HOME=cache_dir, HOME=cache_dir, TERM="xterm")
     p = Pty([lace, "debug", "--minimal", asm], env)
+    if cols:
+        # give the terminal a size (a freshly opened pty reports 0 x 0)
+        import fcntl
+        import struct
+        import termios
+        fcntl.ioctl(p.fd, termios.TIOCSWINSZ, struct.pack("HHHH", 24, cols, 0, 0))
     seen = p.read_until(at_prompt, limit=30.0)
     if seen:
         if mode == "burst":
